@@ -266,7 +266,14 @@ def run_case(doc):
         rm = rd.getModel()
         n0 = len(_rule_log)
         try:
-            M = Model(sbml_filename=path, sbml_warnings=False)
+            if len(doc["reactions"]) % 3 == 0:
+                # the verbose reader (input_printout=True): same model, it only talks more
+                import contextlib, io
+                with contextlib.redirect_stdout(io.StringIO()):
+                    M = Model(sbml_filename=path, sbml_warnings=False, input_printout=True)
+                C["documents_imported_verbosely"] += 1
+            else:
+                M = Model(sbml_filename=path, sbml_warnings=False)
         except Exception as e:
             # an explicit refusal yields no model and therefore no wrong semantics; it is counted, and a run in which many
             # documents are refused is inconclusive (see aggregate)
